@@ -37,7 +37,7 @@ def handlers : List (String × (List String → List String → Option Verdict))
   ("wp", Driver.Wild.wp), ("wperr", Driver.Wild.wperr),
   ("wd", Driver.Wild.wd), ("wderr", Driver.Wild.wderr), ("wdstatic", Driver.Wild.wdstatic),
   ("wr", Driver.Wild.wr), ("wrerr", Driver.Wild.wrerr),
-  ("cfg", Driver.Config.cfg), ("fuzz", Driver.Config.fuzz), ("unk", Driver.Config.unk),
+  ("cfg", Driver.Config.cfg), ("fuzz", Driver.Config.fuzz), ("unk", Driver.Config.unk), ("fs", Driver.Config.fs),
   ("ra1", Driver.Config.ra1), ("ra3", Driver.Config.ra3), ("ra4", Driver.Config.ra4),
   ("ws", Driver.C19.ws), ("wsu", Driver.C19.wsu), ("wsc", Driver.C19.wsc),
   ("vr", Driver.C12.vr),
